@@ -1118,7 +1118,7 @@ def _scatter_generic(combine):
         # number of scatter points must be concrete (it is 1 for x.at[i].set(v))
         scat_shape = [updates.shape[d] for d in upd_scatter_dims]
         if not all(isinstance(d, int) for d in scat_shape):
-            raise Unsupported("scatter with symbolic number of scatter points")
+            return _scatter_symbolic(ctx, eqn, a, indices, updates, combine, uwd, iwd, sdtod, upd_scatter_dims, window_operand_dims, scat_shape)
         mode_s = str(eqn.params["mode"])
         clip = "CLIP" in mode_s
         points = list(itertools.product(*[range(d) for d in scat_shape]))
@@ -1167,6 +1167,25 @@ def _scatter_generic(combine):
             return val
         return [SArr(shp, a.kind, fn, a.dtype)]
     return r
+
+
+def _scatter_symbolic(ctx, eqn, a, indices, updates, combine, uwd, iwd, sdtod, upd_scatter_dims, window_operand_dims, scat_shape):
+    """scatter-add with a symbolic number of scatter points (one scatter axis, no window):
+    out[idx] = a[idx] + SUM_p [indices[p] == idx] * updates[p]   (a reduction over the symbolic extent)."""
+    if eqn.primitive.name not in ("scatter-add", "scatter_add") or len(scat_shape) != 1 or uwd:
+        raise Unsupported("scatter with symbolic number of scatter points (only windowless scatter-add is modelled)")
+    shp = out_shape(ctx, eqn)
+    ext = scat_shape[0]
+
+    def fn(idx):
+        def body(p):
+            hit = sand(*[seq(idx[opd], indices.at((p, k))) for k, opd in enumerate(sdtod)])
+            return site(hit, updates.at((p,)), 0 if a.kind == "i" else Fraction(0))
+        rid = len(ctx.reductions)
+        sym = z3.Const(ctx.fresh("red_scatter"), sort_of_kind(a.kind))
+        ctx.reductions.append(Reduction(rid, "sum", ext, body, sym))
+        return sadd(a.at(idx), sym)
+    return [SArr(shp, a.kind, fn, a.dtype)]
 
 
 RULES["scatter"] = _scatter_generic(lambda old, new: new)
